@@ -261,8 +261,8 @@ def field_table(db):
 # ---------------------------------------------------------------- base databases
 def base_databases(rng, quick):
     import odxtools
-    out = [("somersault", lambda: odxtools.load_pdx_file("/repo/examples/somersault.pdx")),
-           ("somersault_modified", lambda: odxtools.load_pdx_file("/repo/examples/somersault_modified.pdx"))]
+    out = [("somersault", lambda: odxtools.load_pdx_file(common.REPO + "/examples/somersault.pdx")),
+           ("somersault_modified", lambda: odxtools.load_pdx_file(common.REPO + "/examples/somersault_modified.pdx"))]
     import c10
     import random
     for k in range(1 if quick else 4):
